@@ -329,6 +329,20 @@ def decAs4Path (data : Bytes) (len : Nat) : Option AttrData :=
 def decExact (k : Nat) (data : Bytes) (len : Nat) : Option AttrData :=
   if len ≠ k then none else some (.bin data)
 
+/-- AIGP (RFC 7311): TLVs of 1-byte type and 2-byte length that includes the three header bytes -/
+def aigpOk : Nat → Bytes → Bool
+  | _, [] => true
+  | 0, _ => false
+  | fuel + 1, b =>
+      match b with
+      | _ :: lh :: ll :: rest =>
+          let l := lh * 256 + ll
+          if l < 3 ∨ 3 + rest.length < l then false else aigpOk fuel (rest.drop (l - 3))
+      | _ => false
+
+def decAigp (data : Bytes) : Option AttrData :=
+  if aigpOk (data.length + 1) data then some (.bin data) else none
+
 /-- `data` = the `len` bytes of the attribute value (the guard before the call makes them available);
     `none` = `Err(())` -/
 def attrDecode (code : Nat) (data : Bytes) (len : Nat) (two : Bool) : Option AttrData :=
@@ -343,6 +357,8 @@ def attrDecode (code : Nat) (data : Bytes) (len : Nat) (two : Bool) : Option Att
   else if code = 32 then decMultiple 12 data len
   else if code = 17 then decAs4Path data len
   else if code = 18 then decExact 8 data len
+  else if code = 3 then decExact 4 data len
+  else if code = 26 then decAigp data
   else some (.bin data)
 
 /-! ## `Nexthop::from_bytes` followed by `to_bytes` -/
@@ -505,6 +521,8 @@ structure AState where
   mpReach : Option Bytes := none
   mpUnreach : Option Bytes := none
   nexthop : Option Bytes := none
+  /-- the attribute block ended in the middle of an attribute -/
+  trunc : Bool := false
   deriving DecidableEq, Repr, Inhabited
 
 inductive Hdr where
@@ -538,17 +556,24 @@ def attrStore (two : Bool) (s : AState) (a : Attr) : AState :=
   else if (a.code = 17 ∨ a.code = 18) ∧ ¬ two then s
   else { s with attrs := s.attrs ++ [a] }
 
-/-- an attribute whose type has canonical flags `expected` -/
+/-- decode the value of an attribute of a known type and store it (or record the decode error) -/
+def attrDecoded (two : Bool) (buf : Bytes) (s : AState) (flags code alen pos : Nat) : AState :=
+  match attrDecode code ((buf.drop pos).take alen) alen two with
+  | some d => attrStore two { s with pos := pos + alen } ⟨code, flags, d⟩
+  | none =>
+      if code ≠ 17 ∧ code ≠ 18 then
+        { s with pos := pos + alen, errs := s.errs ++ [(code, flags)] }
+      else { s with pos := pos + alen }
+
+/-- `(flags ^ expected_flags) & (TRANSITIVE | OPTIONAL) > 0` -/
+def flagsConflict (flags expected : Nat) : Bool := (flags ^^^ expected) &&& 0xc0 > 0
+
+/-- an attribute whose type has canonical flags `expected` (as repaired): wrong flags are recorded and the
+    attribute skipped, except MP_REACH / MP_UNREACH which are still decoded so that their NLRI can be withdrawn -/
 def attrKnown (two : Bool) (buf : Bytes) (s : AState) (flags code alen pos expected : Nat) : AState :=
-  if (flags ^^^ expected) &&& 0xc0 > 0 then
-    { s with pos := pos + alen, errs := s.errs ++ [(code, flags)] }
-  else
-    match attrDecode code ((buf.drop pos).take alen) alen two with
-    | some d => attrStore two { s with pos := pos + alen } ⟨code, flags, d⟩
-    | none =>
-        if code ≠ 17 ∧ code ≠ 18 then
-          { s with pos := pos + alen, errs := s.errs ++ [(code, flags)] }
-        else { s with pos := pos + alen }
+  let s1 := if flagsConflict flags expected then { s with errs := s.errs ++ [(code, flags)] } else s
+  if flagsConflict flags expected ∧ code ≠ 14 ∧ code ≠ 15 then { s1 with pos := pos + alen }
+  else attrDecoded two buf s1 flags code alen pos
 
 /-- an attribute of a type without canonical flags -/
 def attrUnknown (buf : Bytes) (s : AState) (flags code alen pos : Nat) : Out AState :=
@@ -579,9 +604,9 @@ def attrLoop (two : Bool) (buf : Bytes) (attrEnd : Nat) : Nat → AState → Out
       if s.pos < attrEnd then do
         let h ← attrHeader buf attrEnd s.pos
         match h with
-        | .brk pos => .ok { s with pos := pos }
+        | .brk pos => .ok { s with pos := pos, trunc := true }
         | .hdr flags code alen pos =>
-            if attrEnd < pos + alen then .ok { s with pos := pos }
+            if attrEnd < pos + alen then .ok { s with pos := pos, trunc := true }
             else do
               let s' ← attrBody two buf s flags code alen pos
               attrLoop two buf attrEnd fuel s'
@@ -661,7 +686,7 @@ def finalErrs (s : AState) (reachLen attrEnd : Nat) : List (Nat × Nat) :=
       let errs := if ¬ s.seen.contains 1 ∨ ¬ s.seen.contains 2 then errs ++ [(1, 0x40)] else errs
       if errs.isEmpty ∧ s.nexthop.isNone ∧ reachLen ≠ 0 then errs ++ [(3, 0x40)] else errs
     else errs
-  if s.pos ≠ attrEnd then errs ++ [(0, 0)] else errs
+  if s.trunc ∨ s.pos ≠ attrEnd then errs ++ [(0, 0)] else errs
 
 /-- legacy IPv4 NLRI after the attribute block -/
 def legacyReach (dec : HypDec) (c : Codec) (buf : Bytes) (pos : Nat) : Out (List PNlri) :=
